@@ -11,6 +11,7 @@ real pool round trip.
 import io
 import multiprocessing
 import pickle
+import sys
 import threading
 import time
 
@@ -38,7 +39,7 @@ ASSUMPTIONS = [
 ]
 BOUNDS = {"quick": "n in 1..5 x k in 1..4, deviations <= 2; (17,16) and (33,16) deviations <= 1; faults at every position for n<=4,k in {2,3}",
           "thorough": "n in 1..7 x k in 1..4, deviations <= 3; (17,16), (33,16), (9,2) deviations <= 2"}
-REQUIRED_BUCKETS = {t: ["schedules:replayed", "schedules:reordered-completion", "faults:raised-in-worker", "faults:timeout", "content:records"]
+REQUIRED_BUCKETS = {t: ["schedules:replayed", "schedules:reordered-completion", "faults:raised-in-worker", "faults:timeout", "content:records", "content:catalogue-records", "content:origin-spanning-gene-records"]
                     for t in ("quick", "thorough")}
 N_MAX = 40
 WATCHDOG = 60.0
@@ -315,8 +316,47 @@ def sample_records():
     return out
 
 
-def check_content(stats=None):
+def catalogue_records(tier):
+    """annotated records of the shared catalogue (C10-C12), every layout with an origin-spanning gene included, with the caches
+    that the pipeline fills (gene lists of areas, defining genes) filled before they cross the process boundary"""
+    from mc.universe import catalogue as K  # pylint: disable=import-outside-toplevel
+    specs = K.specs("quick")
+    if tier == "quick":
+        specs = [s for i, s in enumerate(specs) if s["layout"] in K.CIRCULAR_ONLY or i % 5 == 0]
+    out = []
+    for spec in specs:
+        rec = K.build_record(spec)
+        K.describe(rec)
+        for area in list(rec.get_protoclusters()) + list(rec.get_candidate_clusters()) + list(rec.get_subregions()) + list(rec.get_regions()):
+            _ = area.cds_children
+        for proto in rec.get_protoclusters():
+            _ = proto.definition_cdses
+        out.append((spec, rec))
+    return out
+
+
+def check_content(stats=None, tier="quick"):
+    from mc.ref.deepstate import deep_state  # pylint: disable=import-outside-toplevel
+    sys.setrecursionlimit(max(sys.getrecursionlimit(), 100000))
     fails = []
+    # every attribute of every object of the record graph, before and after the process boundary
+    labelled = catalogue_records(tier)
+    deep_before = [deep_state(rec) for _, rec in labelled]
+    for (spec, rec), state in zip(labelled, deep_before):
+        if deep_state(pickle.loads(pickle.dumps(rec))) != state:
+            fails.append(("record-state-changed-by-pickle", f"catalogue record {spec}"))
+    for cpus in (2, 3):
+        returned = parallel_function(identity, [[rec] for _, rec in labelled], cpus=cpus)
+        if len(returned) != len(labelled):
+            fails.append(("pool-result-count", f"{len(returned)} vs {len(labelled)}"))
+            continue
+        for (spec, _), state, rec in zip(labelled, deep_before, returned):
+            if deep_state(rec) != state:
+                fails.append(("record-state-changed-by-pool-round-trip", f"cpus={cpus} catalogue record {spec}"))
+    if stats is not None:
+        stats["content:catalogue-records"] += len(labelled)
+        stats["content:origin-spanning-gene-records"] += sum(1 for spec, _ in labelled if spec["layout"].startswith("origin"))
+    fails = fails[:20]
     records = sample_records()
     before = [describe(r) for r in records]
     for i, rec in enumerate(records):
@@ -348,7 +388,7 @@ def shards(tier):
     for n, k, bound in grid:
         out.append(["schedules", n, k, bound])
     out.append(["faults", fault_grid])
-    out.append(["content"])
+    out.append(["content", tier])
     return out
 
 
@@ -384,9 +424,9 @@ def run_shard(shard):
         res.sample({"kind": "faults", "n": 2, "k": 2}, 1)
     else:
         Cfg.make_config(["--cpus", "2"])
-        fails = check_content(res.buckets)
-        res.evals += 15
-        res.nontrivial += 15
+        fails = check_content(res.buckets, shard[1] if len(shard) > 1 else "quick")
+        res.evals += 15 + 3 * res.buckets.get("content:catalogue-records", 0)
+        res.nontrivial += 15 + 3 * res.buckets.get("content:origin-spanning-gene-records", 0)
         for clause, detail in fails:
             res.fail({"kind": "content"}, clause, detail)
         res.outcomes[("content", len(fails))] += 1
